@@ -409,4 +409,27 @@ PROPS = {
             "C08: the low-rank pipeline (faer SVD / QR / eigendecompositions) is not modelled: proved is only the algebra of its SPD-mean formula (X B X = A; the Gaussian covariance is a solution), its behaviour is measured (part A degenerate windows, part B exactness through fisher_distance); uniqueness of the SPD solution and the effect of the gamma regularisation are not proved",
         ],
     },
+    "C04": {
+        "gen": [],
+        "thm_module": "NutsModel.Thm.C04",
+        "namespace": "NutsModel.C04",
+        "theorems": ["shift_orbit", "phase_space_detailed_balance", "mixture_reversible", "momentum_is_fresh", "arrayGaussian_scales"],
+        "harness": "C04",
+        "level": "other",
+        "rule": ("STATISTICAL SUPPORT, not proof: real chains (public API, default settings apart from num_draws) for Diag / LowRank NUTS x Euclidean / "
+                 "ExactNormal kinetic energy x dual averaging / Adam on isotropic, badly scaled (condition number 1e6), rank-one-correlated Gaussians, "
+                 "a Student-t(8) product and a skewed log-Gamma(2) product, dimension 1, 5, 30 (thorough: also 100), 4 chains each (quick: half of the "
+                 "120 combinations chosen by the seed; thorough: all, 6000 draws). Per monitored coordinate: z-scores of the mean, of the variance and of the "
+                 "coverage of the true 5/25/50/75/95% marginal quantiles against the KNOWN truth, batch-means standard errors (120 batches); post-warmup "
+                 "divergences on the isotropic Gaussian must be 0. Momentum law: for Diag presets with both kinetic energies the initial velocity of every "
+                 "post-warmup trajectory is reconstructed from the first density evaluation of the draw (inverting the first leapfrog step of the C02 "
+                 "model with the frozen scales) and tested for mean 0, variance 1, kurtosis 3 per coordinate, Kolmogorov-Smirnov distance to N(0,1), lag-1 "
+                 "autocorrelation and correlation with the previous whitened position. A statistic is reported only if |z| > 6 AND a confirmation run "
+                 "with fresh seeds and 4x the draws again gives |z| > 6 with the same sign. distinct_nontrivial = configurations whose chains all completed."),
+        "trusted": [
+            "C04: what is PROVED (Thm/C04 on top of C01Refine, C02, Sched): for every bijective integrator the frozen NUTS kernel satisfies detailed balance w.r.t. exp(-H) in phase space (phase_space_detailed_balance), also under a state-independent random step size (mixture_reversible); the velocity of a trajectory is the fresh standard-normal vector of that trajectory (momentum_is_fresh, model of initialize_trajectory/array_gaussian(ones)); after num_tune the kernel is frozen (C06). The lift from orbit-level balance to invariance of pi x N(0,I) under Lebesgue measure is standard measure theory and is NOT formalised",
+            "C04: 'means, variances and quantiles match within Monte-Carlo error' is a statement about mixing of actual runs; no model theorem decides it -- this part of the property is measured (z-scores with a confirmation stage), which is why the level claimed is 'other', not 'proof'",
+            "C04: the momentum reconstruction assumes a diagonal frozen transformation (Diag presets); the low-rank presets share the same initialize_trajectory code path",
+        ],
+    },
 }
